@@ -362,6 +362,118 @@ Definition enclose (c : cfg) (s : st) (names : list name) : st * option nat :=
       end
   end.
 
+(* ---- list-walking combinators of the interpreter (kept outside the big fixpoint so that
+   lemmas about them can be proved once, by induction on the list) ---- *)
+
+(* evaluate a list of things left to right, threading the state *)
+Definition map_eval {X} (ev : st -> X -> outcome (value * st)) : st -> list X -> outcome (list value * st) :=
+  fix go (s : st) (l : list X) : outcome (list value * st) :=
+    match l with
+    | [] => Ok ([], s)
+    | x :: r => bind (ev s x) (fun '(v, s1) => bind (go s1 r) (fun '(vs, s2) => Ok (v :: vs, s2)))
+    end.
+
+Definition map_eval_kw (ev : st -> expr -> outcome (value * st)) : st -> list (name * expr) -> outcome (list (name * value) * st) :=
+  fix go (s : st) (l : list (name * expr)) : outcome (list (name * value) * st) :=
+    match l with
+    | [] => Ok ([], s)
+    | (k, x) :: r => bind (ev s x) (fun '(v, s1) => bind (go s1 r) (fun '(kv, s2) => Ok ((k, v) :: kv, s2)))
+    end.
+
+(* chained comparison a < b < c: every operand evaluated at most once, stops at the first false *)
+Definition cmp_chain (m : ubehav) (ev : st -> expr -> outcome (value * st)) : value -> st -> list (cmpop * expr) -> outcome (value * st) :=
+  fix chain (left : value) (s : st) (l : list (cmpop * expr)) : outcome (value * st) :=
+    match l with
+    | [] => Ok (VBool true, s)
+    | (op, r) :: l' =>
+        bind (ev s r) (fun '(y, s2) =>
+        bind (do_cmp m op left y) (fun b =>
+          match l' with
+          | [] => Ok (VBool b, s2)
+          | _ => if b then chain y s2 l' else Ok (VBool false, s2)
+          end))
+    end.
+
+(* macro_object.rs::prepare_args: every parameter positional, or keyword, or undefined; both = duplicate *)
+Definition bind_params (kwargs : list (name * value)) : list name -> list value -> outcome (list (name * value)) :=
+  fix bindp (ps : list name) (pos : list value) : outcome (list (name * value)) :=
+    match ps with
+    | [] => Ok []
+    | p :: ps' =>
+        match pos, assoc p kwargs with
+        | v :: pos', None => bind (bindp ps' pos') (fun r => Ok ((p, v) :: r))
+        | v :: _, Some _ => Err E_TooManyArguments
+        | [], Some v => bind (bindp ps' []) (fun r => Ok ((p, v) :: r))
+        | [], None => bind (bindp ps' []) (fun r => Ok ((p, VUndef) :: r))
+        end
+    end.
+
+(* arguments are stored one by one; a missing one takes its default, evaluated in the macro's scope *)
+Definition store_args (ev : st -> expr -> outcome (value * st)) (defaults : list (name * expr)) : st -> list (name * value) -> outcome st :=
+  fix go (s : st) (l : list (name * value)) : outcome st :=
+    match l with
+    | [] => Ok s
+    | (p, v) :: r =>
+        match is_undef v, assoc p defaults with
+        | true, Some d => bind (ev s d) (fun '(dv, s1) => go (store s1 p dv) r)
+        | _, _ => go (store s p v) r
+        end
+    end.
+
+Definition if_arms (m : ubehav) (ev : st -> expr -> outcome (value * st)) (ex : st -> list stmt -> outcome (signal * st))
+    (els : option (list stmt)) : st -> list (expr * list stmt) -> outcome (signal * st) :=
+  fix go (s : st) (l : list (expr * list stmt)) : outcome (signal * st) :=
+    match l with
+    | [] => match els with Some b => ex s b | None => Ok (SigNormal, s) end
+    | (cnd, body) :: r =>
+        bind (ev s cnd) (fun '(v, s1) => bind (u_is_true m v) (fun b =>
+        if b then ex s1 body else go s1 r))
+    end.
+
+Definition bind_target (tgt : target) (s : st) (item : value) : outcome st :=
+  match tgt, item with
+  | TVar x, _ => Ok (store s x item)
+  | TPair x y, VList [a; b] => Ok (store (store s x a) y b)
+  | TPair _ _, _ => Err E_CannotUnpack
+  end.
+
+(* the loop filter runs in a scope of its own, once per item *)
+Definition filter_items (m : ubehav) (ev : st -> expr -> outcome (value * st)) (tgt : target) (fe : expr) : st -> list value -> outcome (list value * st) :=
+  fix go (s : st) (l : list value) : outcome (list value * st) :=
+    match l with
+    | [] => Ok ([], s)
+    | item :: r =>
+        let sf := push_frame s (mkFrame [] (Some (0, 0, false)) None None false) in
+        bind (bind_target tgt sf item) (fun sf1 =>
+        bind (ev sf1 fe) (fun '(v, sf2) => bind (u_is_true m v) (fun keep =>
+        bind (go (pop_frame sf2) r) (fun '(rest, s3) =>
+        Ok (if keep then item :: rest else rest, s3)))))
+    end.
+
+(* the iterations of a loop whose frame is on top: every iteration starts with fresh locals *)
+Definition loop_items (ex : st -> list stmt -> outcome (signal * st)) (tgt : target) (body : list stmt) (n : Z) : st -> Z -> list value -> outcome st :=
+  fix go (s : st) (i : Z) (l : list value) : outcome st :=
+    match l with
+    | [] => Ok s
+    | item :: r =>
+        let s' := match s_env s with
+                  | f :: e => with_env s (mkFrame [] (Some (i, n, true)) (f_closure f) (f_closure_ctx f) false :: e)
+                  | [] => s end in
+        bind (bind_target tgt s' item) (fun s3 =>
+        bind (ex s3 body) (fun '(sg, s4) =>
+        match sg with
+        | SigBreak => Ok s4
+        | _ => go s4 (i + 1) r
+        end))
+    end.
+
+Definition with_binds (ev : st -> expr -> outcome (value * st)) : st -> list (name * expr) -> outcome st :=
+  fix go (s : st) (l : list (name * expr)) : outcome st :=
+    match l with
+    | [] => Ok s
+    | (x, e) :: r => bind (ev s e) (fun '(v, s1) => go (store s1 x v) r)
+    end.
+
 (* ---- the interpreter ---- *)
 Section Interp.
 Variable c : cfg.
@@ -371,12 +483,7 @@ Fixpoint eval (fuel : nat) (esc : bool) (s : st) (e : expr) {struct fuel} : outc
   match fuel with
   | O => OutOfGas
   | S fuel =>
-    let eval_list :=
-      fix go (s : st) (l : list expr) : outcome (list value * st) :=
-        match l with
-        | [] => Ok ([], s)
-        | x :: r => bind (eval fuel esc s x) (fun '(v, s1) => bind (go s1 r) (fun '(vs, s2) => Ok (v :: vs, s2)))
-        end in
+    let eval_list := map_eval (eval fuel esc) in
     match e with
     | EConst (LInt z) => Ok (VInt z, s)
     | EConst (LStr t) => Ok (VStr false t, s)
@@ -395,17 +502,7 @@ Fixpoint eval (fuel : nat) (esc : bool) (s : st) (e : expr) {struct fuel} : outc
         bind (do_bin op x y) (fun r => Ok (r, s2)))))
     | ECmp a rest =>
         bind (eval fuel esc s a) (fun '(x, s1) =>
-          (fix chain (left : value) (s : st) (l : list (cmpop * expr)) : outcome (value * st) :=
-             match l with
-             | [] => Ok (VBool true, s)
-             | (op, r) :: l' =>
-                 bind (eval fuel esc s r) (fun '(y, s2) =>
-                 bind (do_cmp m op left y) (fun b =>
-                   match l' with
-                   | [] => Ok (VBool b, s2)
-                   | _ => if b then chain y s2 l' else Ok (VBool false, s2)
-                   end))
-             end) x s1 rest)
+          cmp_chain m (eval fuel esc) x s1 rest)
     | EAnd a b => bind (eval fuel esc s a) (fun '(x, s1) => bind (u_is_true m x) (fun t =>
                     if t then eval fuel esc s1 b else Ok (x, s1)))
     | EOr a b => bind (eval fuel esc s a) (fun '(x, s1) => bind (u_is_true m x) (fun t =>
@@ -433,11 +530,7 @@ Fixpoint eval (fuel : nat) (esc : bool) (s : st) (e : expr) {struct fuel} : outc
         bind (do_test t x) (fun r => Ok (VBool (if neg then negb r else r), s2))))
     | ECall f args kwargs =>
         bind (eval_list s args) (fun '(vs, s1) =>
-        bind ((fix go (s : st) (l : list (name * expr)) : outcome (list (name * value) * st) :=
-                 match l with
-                 | [] => Ok ([], s)
-                 | (k, x) :: r => bind (eval fuel esc s x) (fun '(v, s1) => bind (go s1 r) (fun '(kv, s2) => Ok ((k, v) :: kv, s2)))
-                 end) s1 kwargs) (fun '(kvs, s2) =>
+        bind (map_eval_kw (eval fuel esc) s1 kwargs) (fun '(kvs, s2) =>
         let '(fv, s3) := lookup c s2 f in
         match fv with
         | Some (VMacro mc cl) => call_macro fuel esc s3 mc cl vs kvs
@@ -461,34 +554,14 @@ with call_macro (fuel : nat) (esc : bool) (s : st) (mc : macro) (cl : option nat
   | O => OutOfGas
   | S fuel =>
     if Nat.ltb (length (m_params mc)) (length args) then Err E_TooManyArguments else
-    (* every parameter: positional, or keyword, or undefined; both = duplicate *)
-    let fix bindp (ps : list name) (pos : list value) : outcome (list (name * value)) :=
-        match ps with
-        | [] => Ok []
-        | p :: ps' =>
-            match pos, assoc p kwargs with
-            | v :: pos', None => bind (bindp ps' pos') (fun r => Ok ((p, v) :: r))
-            | v :: _, Some _ => Err E_TooManyArguments
-            | [], Some v => bind (bindp ps' []) (fun r => Ok ((p, v) :: r))
-            | [], None => bind (bindp ps' []) (fun r => Ok ((p, VUndef) :: r))
-            end
-        end in
-    bind (bindp (m_params mc) args) (fun bound =>
+    bind (bind_params kwargs (m_params mc) args) (fun bound =>
     if existsb (fun '(k, _) => negb (existsb (Z.eqb k) (m_params mc)) && negb (m_caller mc && (k =? N_caller))) kwargs
     then Err E_TooManyArguments else
     let caller_v := match assoc N_caller kwargs with Some v => v | None => VUndef end in
     let top := mkFrame (if m_caller mc then [(N_caller, caller_v)] else []) None None cl false in
     let s0 := mkSt [top; base_frame] (s_clos s) [] (s_asks s) in
-    (* arguments are stored last-to-first; a missing one takes its default, evaluated in the macro's scope *)
-    bind ((fix go (s : st) (l : list (name * value)) : outcome st :=
-             match l with
-             | [] => Ok s
-             | (p, v) :: r =>
-                 match is_undef v, assoc p (m_defaults mc) with
-                 | true, Some d => bind (eval fuel esc s d) (fun '(dv, s1) => go (store s1 p dv) r)
-                 | _, _ => go (store s p v) r
-                 end
-             end) s0 (rev bound)) (fun s1 =>
+    (* arguments are stored last-to-first *)
+    bind (store_args (eval fuel esc) (m_defaults mc) s0 (rev bound)) (fun s1 =>
     bind (exec_list fuel esc s1 (m_body mc)) (fun '(_, s2) =>
     Ok (VStr esc (output_of s2), mkSt (s_env s) (s_clos s2) (s_out s) (s_asks s2)))))
   end
@@ -508,13 +581,7 @@ with exec (fuel : nat) (esc : bool) (s : st) (t : stmt) {struct fuel} : outcome 
         if u_strictish m && is_strict_undef v then Err E_UndefinedError
         else Ok (SigNormal, emit s1 (render_value esc v)))
     | SIf arms els =>
-        (fix go (s : st) (l : list (expr * list stmt)) : outcome (signal * st) :=
-           match l with
-           | [] => match els with Some b => exec_list fuel esc s b | None => Ok (SigNormal, s) end
-           | (cnd, body) :: r =>
-               bind (eval fuel esc s cnd) (fun '(v, s1) => bind (u_is_true m v) (fun b =>
-               if b then exec_list fuel esc s1 body else go s1 r))
-           end) s arms
+        if_arms m (eval fuel esc) (exec_list fuel esc) els s arms
     | SFor tgt iter flt body els _ =>
         bind (eval fuel esc s iter) (fun '(iv, s1) =>
         bind (match iv with
@@ -522,43 +589,12 @@ with exec (fuel : nat) (esc : bool) (s : st) (t : stmt) {struct fuel} : outcome 
               | VUndef => if u_strictish m then Err E_UndefinedError else Ok []
               | VSilent => Ok []
               | _ => Err E_InvalidOperation end) (fun items =>
-        let bind_target (s : st) (item : value) : outcome st :=
-            match tgt, item with
-            | TVar x, _ => Ok (store s x item)
-            | TPair x y, VList [a; b] => Ok (store (store s x a) y b)
-            | TPair _ _, _ => Err E_CannotUnpack
-            end in
-        (* the loop filter runs in a scope of its own, once per item *)
         bind (match flt with
               | None => Ok (items, s1)
-              | Some fe =>
-                  (fix go (s : st) (l : list value) : outcome (list value * st) :=
-                     match l with
-                     | [] => Ok ([], s)
-                     | item :: r =>
-                         let sf := push_frame s (mkFrame [] (Some (0, 0, false)) None None false) in
-                         bind (bind_target sf item) (fun sf1 =>
-                         bind (eval fuel esc sf1 fe) (fun '(v, sf2) => bind (u_is_true m v) (fun keep =>
-                         bind (go (pop_frame sf2) r) (fun '(rest, s3) =>
-                         Ok (if keep then item :: rest else rest, s3)))))
-                     end) s1 items
+              | Some fe => filter_items m (eval fuel esc) tgt fe s1 items
               end) (fun '(items, s2) =>
         let n := lenZ items in
-        bind ((fix go (s : st) (i : Z) (l : list value) : outcome st :=
-                 match l with
-                 | [] => Ok s
-                 | item :: r =>
-                     (* every iteration starts with fresh locals in the loop's scope *)
-                     let s' := match s_env s with
-                               | f :: e => with_env s (mkFrame [] (Some (i, n, true)) (f_closure f) (f_closure_ctx f) false :: e)
-                               | [] => s end in
-                     bind (bind_target s' item) (fun s3 =>
-                     bind (exec_list fuel esc s3 body) (fun '(sg, s4) =>
-                     match sg with
-                     | SigBreak => Ok s4
-                     | _ => go s4 (i + 1) r
-                     end))
-                 end) (push_frame s2 (mkFrame [] (Some (0, n, true)) None None false)) 0 items) (fun s5 =>
+        bind (loop_items (exec_list fuel esc) tgt body n (push_frame s2 (mkFrame [] (Some (0, n, true)) None None false)) 0 items) (fun s5 =>
         let s6 := pop_frame s5 in
         match items, els with
         | [], Some eb => exec_list fuel esc s6 eb
@@ -576,11 +612,7 @@ with exec (fuel : nat) (esc : bool) (s : st) (t : stmt) {struct fuel} : outcome 
         | _ => Ok (sg, s1)            (* a loop control left the block: nothing is assigned *)
         end)
     | SWith binds body =>
-        bind ((fix go (s : st) (l : list (name * expr)) : outcome st :=
-                 match l with
-                 | [] => Ok s
-                 | (x, e) :: r => bind (eval fuel esc s e) (fun '(v, s1) => go (store s1 x v) r)
-                 end) (push_frame s empty_frame) binds) (fun s1 =>
+        bind (with_binds (eval fuel esc) (push_frame s empty_frame) binds) (fun s1 =>
         bind (exec_list fuel esc s1 body) (fun '(sg, s2) => Ok (sg, pop_frame s2)))
     | SMacro nm params defaults body =>
         let mc := mkMacro nm params defaults body (uses_caller params defaults body) in
@@ -588,11 +620,7 @@ with exec (fuel : nat) (esc : bool) (s : st) (t : stmt) {struct fuel} : outcome 
         Ok (SigNormal, store s1 nm (VMacro mc cl))
     | SCallBlock mn args body =>
         (* positional arguments first, then the caller macro (closing over the call site) *)
-        bind ((fix go (s : st) (l : list expr) : outcome (list value * st) :=
-                 match l with
-                 | [] => Ok ([], s)
-                 | x :: r => bind (eval fuel esc s x) (fun '(v, s1) => bind (go s1 r) (fun '(vs, s2) => Ok (v :: vs, s2)))
-                 end) s args) (fun '(vs, s1) =>
+        bind (map_eval (eval fuel esc) s args) (fun '(vs, s1) =>
         let cm := mkMacro N_caller [] [] body (uses_caller [] [] body) in
         let '(s2, cl) := enclose c s1 (macro_closure [] [] body) in
         let '(fv, s3) := lookup c s2 mn in
